@@ -249,10 +249,11 @@ def gen_deck_once(rng, level0, malformed, like):
         if has_imp:
             chosen = rng.sample(particles, rng.randint(1, len(particles)))
             for group in partition(rng, chosen):
-                sp = rng.choice(g.ZERO_SPELLINGS) if rng.random() < 0.4 \
-                    else rng.choice(g.IMP_VALUES)
+                sp = rng.choice(g.ZERO_SPELLINGS + g.FORTRAN_ZEROS) \
+                    if rng.random() < 0.4 \
+                    else rng.choice(g.IMP_VALUES + g.FORTRAN_VALUES)
                 blocks.append({'kind': 'imp', 'kw': 'imp:' + ','.join(group),
-                               'vals': [sp], 'value': float(sp),
+                               'vals': [sp], 'value': g.mcnp_value(sp),
                                'parts': group})
         if rng.random() < 0.3:
             blocks.append(g.gen_block(rng, 'noise'))
@@ -392,7 +393,8 @@ def apply_fault(deck, rng):
         cells[rng.randrange(len(cells))]['opts'] += ' ' + rng.choice(
             ['imp:n=0 imp:n=2', 'imp:n=2 imp:n=0', 'imp:n,p=1 imp:p=0 imp:n 0',
              'imp:p=3 imp:n,p=0', 'imp=0', 'imp:=1 imp:n=0', 'imp:n,=0',
-             'imp::n=1 imp:n=0', 'IMP:N,P,E=0 imp:e 1'])
+             'imp::n=1 imp:n=0', 'IMP:N,P,E=0 imp:e 1', 'imp:n=1d',
+             'imp:n=1.5+3-2', 'imp:n=d5', 'imp:n=1+'])
     elif fault == 'dup_cell':
         first = cells[0]
         if first['like'] is None:
@@ -512,6 +514,10 @@ CORPUS = [
      ['imp:n 1.0+0 0.0+0 5-1 0d0 2+0m 0-3'], [2, 4, 5, 6]),
     ('fortran-interpolation', [(1, ''), (2, ''), (3, ''), (4, '')],
      ['imp:n 2d0 1i 0.0+0 1.5D+0'], [3]),
+    ('fortran-spellings-on-cell-cards',
+     [(1, 'imp:n=1.0+0'), (2, 'imp:n=0.0+0'), (3, 'imp:n 0d0 imp:p=5-1'),
+      (4, 'IMP:N=0-3 imp:p 0.D+2'), (5, ('like', 1), 'imp:n=0d0')], [],
+     [2, 4, 5]),
     ('position-not-id', [(30, ''), (10, ''), (20, '')], ['imp:n 0 1 1'], [30]),
     ('continuation-of-data-card', [(1, ''), (2, ''), (3, ''), (4, '')],
      ['imp:n 1', '      0 1', '      0'], [2, 4]),
